@@ -222,6 +222,9 @@ class FetchCommand(CommandSelect):
             params_copy = params.copy(expected=[FetchAttribute])
             attr_list_p, buf = List.parse(buf, params_copy)
             attr_list = attr_list_p.get_as(FetchAttribute)
+            if not attr_list:
+                # a response with no data items could not be written
+                raise NotParseable(buf)
         if params.uid:
             attr_list = list(attr_list) + [FetchAttribute(b'UID')]
         options, buf = ExtensionOptions.parse(buf, params)
